@@ -1013,8 +1013,15 @@ def _judge(part, spec, tag, cfg, attribute, case, items, names, failing, node, r
             if any(r.may_refuse() for r in refs):
                 part.outcomes['valid:refused-allowed(start value outside limits)'] += 1
                 return 'refused-allowed'
-            what = ('files:' + '+'.join(s[0] for s in spec) if tag == 'files'
-                    else '|'.join(kinds(c, it) for (c, _e, _r), it in zip(spec, items)))
+            # file the refusal under the smallest part of the configuration that is refused on its own: the entries on one
+            # accessible of one module (direct mode, memoised); else under the whole configuration
+            culprits = refused_groups(spec) if attribute else []
+            if culprits:
+                what = '|'.join(culprits)
+            elif tag == 'files':
+                what = 'files:' + '+'.join(s[0] for s in spec)
+            else:
+                what = '|'.join(kinds(c, it) for (c, _e, _r), it in zip(spec, items))
             part.violation(f'C10:valid-config-refused:{what}', case,
                            f'{tag}: the configuration {[describe_items(it) for it in items]} of {[s[0] for s in spec]} contains '
                            f'no error of the catalogue but start-up is refused: {refused.errors}')
@@ -1063,6 +1070,26 @@ def _judge(part, spec, tag, cfg, attribute, case, items, names, failing, node, r
     if attribute and (core.TIER != 'quick' or len(spec) == 1 or sum(len(sp[2]) for sp in spec) == 1):
         check_again(part, node, names, case, desc, snap, cfg, ('refused', sorted(n for n in names if n in named)))
     return 'refused'
+
+
+_GROUP = {}
+
+
+def refused_groups(spec):
+    """kinds of the per-accessible entry groups of the modules of spec which are refused in a single-module node of their own"""
+    found = []
+    for cls, ents, _errs in spec:
+        groups = {}
+        for eid in ents:
+            groups.setdefault(entry_by_id(cls, eid)[1], []).append(eid)
+        for _target, group in groups.items():
+            key = (cls, tuple(group))
+            if key not in _GROUP:
+                scratch = core.Part()
+                _GROUP[key] = run_spec(scratch, [[cls, list(group), []]], attribute=False) == 'refused'
+            if _GROUP[key]:
+                found.append(kinds(cls, [entry_by_id(cls, e)[1:] for e in group]))
+    return sorted(set(found))
 
 
 def error_class(cls, eid):
